@@ -250,7 +250,6 @@ package block
 //@   loop 1 invariant [len] len(blockData.Txs) == len(batchData.Batch.Transactions) && rangeindex >= -1 && batchData.Batch != nil && blockData != nil && header != nil
 
 //@ func (m *Manager) execApplyBlock(ctx, lastState, header, data) (s, err)
-//@   property C04 C05
 //@   property C01 C02
 //@   requires [args] data != nil
 //@   ensures [next] err == nil ==> s.LastBlockHeight == header.BaseHeader.Height && s.LastBlockTime == TimeOfU64(header.BaseHeader.Time)
@@ -262,7 +261,6 @@ package block
 //@   loop 1 after [same] sameSeq(rawTxs, data.Txs)
 
 //@ func (m *Manager) applyBlock(ctx, header, data) (s, err)
-//@   property C04 C05
 //@   property C01 C02
 //@   requires [args] data != nil
 //@   ensures [next] err == nil ==> s.LastBlockHeight == header.BaseHeader.Height && s.LastBlockTime == TimeOfU64(header.BaseHeader.Time)
@@ -327,7 +325,7 @@ package block
 //@ func (m *Manager) publishBlockInternal(ctx) (err)
 //@   property C01:-taken-batch-kept
 //@   property C11:taken-batch-kept
-//@   property C04:kind:crash,kind:frame,height,state,inv-state,inv-tip,inv-genesis,inv-no-future,signs-own-block,signed,link,committed-valid,-taken-batch-kept
+//@   property C04:kind:crash,kind:frame,height,state,inv-state,inv-tip,inv-genesis,inv-no-future,signs-own-block,signed,link,committed-valid,stored-block-kept,-taken-batch-kept
 //@   property C08:refuse,no-refuse
 //@   requires [wiring] m.metrics != nil && m.headerCache != nil && m.pendingHeaders != nil && m.pendingHeaders.base != nil && m.pendingData != nil && m.pendingData.base != nil
 //@                       && m.store != nil && m.pendingHeaders.base.store == m.store && m.pendingData.base.store == m.store && m.daHeight != nil
@@ -358,6 +356,12 @@ package block
 // this very step - also when the block was found pending in the store: what a pending header carries in
 // its signature field is not a signature of that header
 //@   ensures [signs-own-block] vl ==> ghs.count == 1 && ghs.res1 == nil && ghs.seq < vl.seq && val(vl.arg2.Signature) == val(ghs.res0) && HdrOf(vl.arg2) == HdrOf(ghs.arg1)
+// C04: a block that is already stored above the chain height (saved by a step that did not finish) is the
+// block of that height: the step takes no new batch and leaves that block's header fields and transactions
+// as they are - it never builds a different block over it
+//@   ensures [stored-block-kept] old(m.store.has[m.store.height + 1]) && !m.store.faulty ==> rb.count == 0
+//@                       && m.store.txsAt[old(m.store.height) + 1] == old(m.store.txsAt[m.store.height + 1])
+//@                       && m.store.hdrAt[old(m.store.height) + 1] == old(m.store.hdrAt[m.store.height + 1])
 //@   ensures [state] m.store.height == old(m.store.height) + 1 ==> m.lastState.LastBlockHeight == m.store.height
 //@                       && val(m.lastState.AppHash) == Exec(old(val(m.lastState.AppHash)), m.store.txsAt[m.store.height])
 //@   ensures [inv-state] !m.store.faulty ==> InvState(m)
